@@ -162,6 +162,9 @@ func attributeValueClass(c context) (ret string) {
 		if c.attr.value != "" || c.attr.dynamic {
 			s += "Partial"
 		}
+		// Branches of the called template that end differently are refused after an
+		// incomplete character reference, see join.
+		s += unfinishedCharRef(c.attr.value)
 	case c.attr.ambiguousValue:
 		// Also when the value of the representative branch is empty, as in
 		// `<a href="{{if .C}}{{else}}java{{end}}{{template "t" .}}">`.
